@@ -51,6 +51,8 @@ def programs(tick, unit, kind='futures'):
     P.append(('long-2leg-same-price-liquidate', dict(base, side='long', enter={'when': 'flat', 'legs': [[1, -1], [1, -1]]},
                                                       on_open={'sl': [[1, 3]], 'tp': [[1, 3]]} if kind == 'futures' else {'tp': [[1, 3]]},
                                                       on_increased={'liquidate': True} if kind == 'futures' else None, cancel_entry=True)))
+    P.append(('long-3leg-both-sides', dict(base, side='long', enter={'when': 'flat', 'legs': [[1, 1], [1, -2], [1, -1]]},
+                                            on_open={'sl': [[1, 6]]} if kind == 'futures' else None, cancel_entry=False)))
     P.append(('long-market-breakeven', dict(base, side='long', enter={'when': 'flat', 'legs': [[2, 0]]},
                                              on_open={'sl': [[2, 2]], 'tp': [[1, 1], [1, 3]]},
                                              on_reduced={'sl': 'breakeven'}, cancel_entry=True)))
